@@ -66,49 +66,57 @@ def LitOK (o : Oracle) (showF : F64 → Str) : Value → Prop
 /-- the map a map literal with these entries denotes (`BTreeMap` collect: sorted, a later duplicate wins) -/
 def collectMap (kvs : List (Str × Expr)) : List (Str × Expr) := kvs.foldl (fun m kv => insertSorted kv.1 kv.2 m) []
 
+/-- literal tokens (everything but keywords, identifiers, punctuation and INDEX) -/
+def IsLitTok : Tok → Prop
+  | .int _ | .hex _ | .oct _ | .bin _ | .float _ | .dec _ | .str _ => True
+  | _ => False
+
 mutual
 /-- `Body e T`: `T` renders the node `e` itself (no outer parentheses), its children rendered at the level the table
     requires for their position -/
-inductive Body (o : Oracle) (showF : F64 → Str) : Expr → List Tok → Prop
-  | lit (v : Value) : LitOK o showF v → Body o showF (.lit v) [litTok showF v]
-  | ref (n : Str) : Body o showF (.ref n) [.ident n]
-  | sym (n : Str) : Body o showF (.sym n) [colon, .ident n]
-  | indexKey (e : Expr) (T : List Tok) (k : Str) : R o showF 8 e T → Body o showF (.index e (.key k)) (T ++ [dot, .ident k])
-  | indexPos (e : Expr) (T : List Tok) (n : Nat) : R o showF 8 e T → n ≤ u64Max →
-      Body o showF (.index e (.pos n)) (T ++ [dot, .index (Disp.showNat n)])
-  | call (f : Str) (a : Expr) (T : List Tok) : R o showF 0 a T → Body o showF (.call f a) (.ident f :: lp :: (T ++ [rp]))
-  | func (k : Str) (op : UnOp) (e : Expr) (T : List Tok) : funcOfKw k = some op → R o showF 0 e T →
-      Body o showF (.un op e) (.kw k :: lp :: (T ++ [rp]))
-  | ite (c t e : Expr) (Tc Tt Te : List Tok) : R o showF 0 c Tc → R o showF 0 t Tt → R o showF 0 e Te →
-      Body o showF (.ite c t e) (kwIf :: (Tc ++ kwThen :: (Tt ++ kwElse :: Te)))
+inductive Body (o : Oracle) : Expr → List Tok → Prop
+  | litTok (t : Tok) (v : Value) (x : List Tok) : IsLitTok t → Lit.ofTok o t = .ok v x → Body o (.lit v) [t]
+  | litTrue : Body o (.lit (.bool true)) [.kw ['t', 'r', 'u', 'e']]
+  | litFalse : Body o (.lit (.bool false)) [.kw ['f', 'a', 'l', 's', 'e']]
+  | litNone : Body o (.lit .none) [.kw ['n', 'o', 'n', 'e']]
+  | ref (n : Str) : Body o (.ref n) [.ident n]
+  | sym (n : Str) : Body o (.sym n) [colon, .ident n]
+  | indexKey (e : Expr) (T : List Tok) (k : Str) : R o 8 e T → Body o (.index e (.key k)) (T ++ [dot, .ident k])
+  | indexPos (e : Expr) (T : List Tok) (ds : Str) : R o 8 e T → Str.ofDigits ds ≤ u64Max →
+      Body o (.index e (.pos (Str.ofDigits ds))) (T ++ [dot, .index ds])
+  | call (f : Str) (a : Expr) (T : List Tok) : R o 0 a T → Body o (.call f a) (.ident f :: lp :: (T ++ [rp]))
+  | func (k : Str) (op : UnOp) (e : Expr) (T : List Tok) : funcOfKw k = some op → R o 0 e T →
+      Body o (.un op e) (.kw k :: lp :: (T ++ [rp]))
+  | ite (c t e : Expr) (Tc Tt Te : List Tok) : R o 0 c Tc → R o 0 t Tt → R o 0 e Te →
+      Body o (.ite c t e) (kwIf :: (Tc ++ kwThen :: (Tt ++ kwElse :: Te)))
   | bin (k : Nat) (t : Tok) (mk : Expr → Expr → Expr) (l r : Expr) (Tl Tr : List Tok) :
-      1 ≤ k → k ≤ 5 → binOpAt k t = some mk → R o showF k l Tl → R o showF (k + 1) r Tr →
-      Body o showF (mk l r) (Tl ++ t :: Tr)
-  | contains (l r : Expr) (Tl Tr : List Tok) : R o showF 8 l Tl → R o showF 8 r Tr →
-      Body o showF (.bin .contains l r) (Tl ++ kwContains :: Tr)
-  | isIn (l r : Expr) (Tl Tr : List Tok) : R o showF 8 l Tl → R o showF 8 r Tr →
-      Body o showF (.bin .contains l r) (Tr ++ kwIn :: Tl)
-  | neg (e : Expr) (T : List Tok) : R o showF 7 e T → Body o showF (.un .neg e) (minus :: T)
-  | not (e : Expr) (T : List Tok) : R o showF 7 e T → Body o showF (.un .not e) (bang :: T)
-  | vec (xs : List Expr) (T : List Tok) : RList o showF xs T → Body o showF (.vec xs) (.p ['['] :: T)
-  | map (kvs : List (Str × Expr)) (T : List Tok) : RMap o showF kvs T → Body o showF (.map (collectMap kvs)) (.p ['{'] :: T)
+      1 ≤ k → k ≤ 5 → binOpAt k t = some mk → R o k l Tl → R o (k + 1) r Tr →
+      Body o (mk l r) (Tl ++ t :: Tr)
+  | contains (l r : Expr) (Tl Tr : List Tok) : R o 8 l Tl → R o 8 r Tr →
+      Body o (.bin .contains l r) (Tl ++ kwContains :: Tr)
+  | isIn (l r : Expr) (Tl Tr : List Tok) : R o 8 l Tl → R o 8 r Tr →
+      Body o (.bin .contains l r) (Tr ++ kwIn :: Tl)
+  | neg (e : Expr) (T : List Tok) : R o 7 e T → Body o (.un .neg e) (minus :: T)
+  | not (e : Expr) (T : List Tok) : R o 7 e T → Body o (.un .not e) (bang :: T)
+  | vec (xs : List Expr) (T : List Tok) : RList o xs T → Body o (.vec xs) (.p ['['] :: T)
+  | map (kvs : List (Str × Expr)) (T : List Tok) : RMap o kvs T → Body o (.map (collectMap kvs)) (.p ['{'] :: T)
 /-- `R k e T`: `T` renders `e` where the table requires level `k`: bare when `e` binds at least that tightly,
     or in parentheses (always allowed, any number of times) -/
-inductive R (o : Oracle) (showF : F64 → Str) : Nat → Expr → List Tok → Prop
-  | bare (k : Nat) (e : Expr) (T : List Tok) : k ≤ lvl e → Body o showF e T → R o showF k e T
-  | paren (k : Nat) (e : Expr) (T : List Tok) : R o showF 0 e T → R o showF k e (lp :: (T ++ [rp]))
+inductive R (o : Oracle) : Nat → Expr → List Tok → Prop
+  | bare (k : Nat) (e : Expr) (T : List Tok) : k ≤ lvl e → Body o e T → R o k e T
+  | paren (k : Nat) (e : Expr) (T : List Tok) : R o 0 e T → R o k e (lp :: (T ++ [rp]))
 /-- items of a list literal after `[`, up to and including `]` (optional trailing comma) -/
-inductive RList (o : Oracle) (showF : F64 → Str) : List Expr → List Tok → Prop
-  | nil : RList o showF [] [.p [']']]
-  | last (e : Expr) (T : List Tok) : R o showF 0 e T → RList o showF [e] (T ++ [.p [']']])
-  | cons (e : Expr) (es : List Expr) (T Ts : List Tok) : R o showF 0 e T → RList o showF es Ts →
-      RList o showF (e :: es) (T ++ comma :: Ts)
+inductive RList (o : Oracle) : List Expr → List Tok → Prop
+  | nil : RList o [] [.p [']']]
+  | last (e : Expr) (T : List Tok) : R o 0 e T → RList o [e] (T ++ [.p [']']])
+  | cons (e : Expr) (es : List Expr) (T Ts : List Tok) : R o 0 e T → RList o es Ts →
+      RList o (e :: es) (T ++ comma :: Ts)
 /-- entries of a map literal after `{`, up to and including `}` -/
-inductive RMap (o : Oracle) (showF : F64 → Str) : List (Str × Expr) → List Tok → Prop
-  | nil : RMap o showF [] [.p ['}']]
-  | last (k : Str) (e : Expr) (T : List Tok) : R o showF 0 e T → RMap o showF [(k, e)] (.ident k :: colon :: (T ++ [.p ['}']]))
-  | cons (k : Str) (e : Expr) (es : List (Str × Expr)) (T Ts : List Tok) : R o showF 0 e T → RMap o showF es Ts →
-      RMap o showF ((k, e) :: es) (.ident k :: colon :: (T ++ comma :: Ts))
+inductive RMap (o : Oracle) : List (Str × Expr) → List Tok → Prop
+  | nil : RMap o [] [.p ['}']]
+  | last (k : Str) (e : Expr) (T : List Tok) : R o 0 e T → RMap o [(k, e)] (.ident k :: colon :: (T ++ [.p ['}']]))
+  | cons (k : Str) (e : Expr) (es : List (Str × Expr)) (T Ts : List Tok) : R o 0 e T → RMap o es Ts →
+      RMap o ((k, e) :: es) (.ident k :: colon :: (T ++ comma :: Ts))
 end
 
 end Reval.G
